@@ -55,8 +55,12 @@ DigestCases == \A d \in Digests : \A n \in Lens : Emit([fn |-> "digest", s |-> <
 StreamDigests == {"md5", "sha1", "sha224", "sha256", "sha384", "sha512"}
 StreamCases == \A d \in StreamDigests : \A n \in {0, 1, 64, 65, 1000} : \A chunk \in {1, 7, 64, 1000} : \A eof \in {"with_data", "separate"} :
     Emit([fn |-> "digeststream", s |-> <<>>, a |-> <<d, n, chunk, eof>>, out |-> <<>>])
-HmacCases == \A d \in {"md5", "sha1", "sha256", "sha512"} : \A kl \in {0, 1, 64, 65, 200} : \A n \in {0, 1, 64, 1000} :
+\* (key lengths around the block sizes 64 and 128: keys longer than a block are hashed first)
+HmacCases == \A d \in {"md5", "sha1", "sha224", "sha256", "sha384", "sha512"} : \A kl \in {0, 1, 63, 64, 65, 127, 128, 129, 200} : \A n \in {0, 1, 64, 1000} :
     Emit([fn |-> "hmac", s |-> <<>>, a |-> <<d, kl, n>>, out |-> <<>>])
+\* a stream that fails after some bytes must not influence a later call (sequence: failing stream, then a good one)
+StreamErrCases == \A d \in StreamDigests : \A n \in {1, 64, 100} : \A after \in {1, 63, 64} :
+    Emit([fn |-> "digeststreamerr", s |-> <<>>, a |-> <<d, n, after>>, out |-> <<>>])
 B64Cases == \A enc \in {"std", "url", "rawstd", "rawurl"} : \A n \in {0, 1, 2, 3, 4, 5, 6, 31, 32, 33} : \A bad \in {"none", "char", "trunc", "pad"} :
     Emit([fn |-> "base64", s |-> <<>>, a |-> <<enc, n, bad>>, out |-> <<>>])
 \* IPv4: octets by class; LongToIPv4 / IPv4ToLong are inverse for all 2^32 addresses
@@ -68,6 +72,7 @@ ASSUME HexCases
 ASSUME HexEncCases
 ASSUME DigestCases
 ASSUME StreamCases
+ASSUME StreamErrCases
 ASSUME HmacCases
 ASSUME B64Cases
 ASSUME Ipv4Cases
